@@ -5,6 +5,7 @@ import (
 	"fmt"
 	"os"
 	"strconv"
+	"strings"
 	"testing"
 	"time"
 
@@ -18,6 +19,9 @@ func TestEngine(t *testing.T) {
 	col := vc.NewCollector(run_)
 	start, _ := strconv.Atoi(os.Getenv("VERIF_START"))
 	wd := vc.NewWatchdog(col, 60*time.Second)
+	// the zeroconf rounds use real sockets and a third-party server whose shutdown waits for its goroutines:
+	// slow under load, and only the race detector decides there
+	wd.NoVerdict = func(op string) bool { return strings.HasPrefix(op, "zc:") }
 	wd.Attribute = func(string) string {
 		if run_.Prop == "C17" || run_.Prop == "C19" || run_.Prop == "C20" {
 			return run_.Prop
@@ -106,7 +110,7 @@ func TestEngine(t *testing.T) {
 		}
 	}
 	if run_.Prop == "" || run_.Prop == "C20" {
-		n := run_.N(20, 600)
+		n := run_.N(20, 240)
 		for i := 0; i < n; i++ {
 			if !run_.Mine(i) {
 				continue
